@@ -994,7 +994,54 @@ fn copy_exec(h: &RepoHandle, dest_v1: bool, dest_comp: i32, hist: Option<(&str, 
     if let Some(f) = verify() {
         return format!("{f}-second-run");
     }
+    // the same snapshots into a destination with ANOTHER master key but the SOURCE's chunker parameters (the recommended set-up of
+    // a copy target; seed C04-6 transferred data blobs raw in exactly that case)
+    if let Some(f) = copy_same_chunker(h, &snaps, &src_digests) {
+        return f;
+    }
     "copied restore=ok".into()
+}
+
+/// `copy` into a fresh repository whose config is the source's config under a new repository id (same chunker kind, sizes,
+/// polynomial: `has_same_chunker`) and whose master key is its own; then every copied snapshot must read back identically from the
+/// destination (every file dumped) and `check --read-data` of the destination must be clean.  `None` = all fine.
+fn copy_same_chunker(h: &RepoHandle, snaps: &[SnapshotFile], src_digests: &BTreeMap<String, String>) -> Option<String> {
+    let config = {
+        let Ok(r) = open_nc(h) else { return Some("err:source-open".into()) };
+        let mut c = r.config().clone();
+        c.id = rustic_core::Id::random().into();
+        c
+    };
+    let hd = RepoHandle { be: MemBackend::new(), hot: None, key: rustic_core::repofile::MasterKey::new() };
+    let init = Repository::new(&RepoHandle::default_opts(), &hd.backends())
+        .and_then(|r| r.init_with_config(&rustic_core::Credentials::Masterkey(hd.key.clone()), &rustic_core::KeyOptions::default(), config));
+    if init.is_err() {
+        return Some("err:dest-init-same-chunker".into());
+    }
+    let run = || -> Result<(), Box<rustic_core::RusticError>> {
+        let src = open_nc(h)?.to_indexed()?;
+        let dst = open_nc(&hd)?.to_indexed_ids()?;
+        src.copy(&dst, snaps.iter())
+    };
+    if let Err(e) = run() {
+        return Some(format!("{}@copy-same-chunker", errkind(&e)));
+    }
+    let Some(dsnaps) = snaps_by_label(&hd) else { return Some("oracle-fail:copy-dest-snapshots-same-chunker".into()) };
+    let drepo = match open_nc(&hd).and_then(Repository::to_indexed) {
+        Ok(r) => r,
+        Err(_) => return Some("oracle-fail:copy-dest-index-same-chunker".into()),
+    };
+    for s in snaps {
+        let want = src_digests.get(&s.id.to_hex().to_string());
+        let got = dsnaps.iter().find(|d| d.label == s.label).and_then(|d| tree_digest(&drepo, d.tree).ok());
+        if want.is_none() || got.as_ref() != want {
+            return Some("oracle-fail:copy-restore-differs-same-chunker".into());
+        }
+    }
+    if !matches!(crate::dispatch::c05::real_check(&hd), Ok(e) if e.is_empty()) {
+        return Some("oracle-fail:copy-dest-check-errors-same-chunker".into());
+    }
+    None
 }
 
 // ---------------------------------------------------------------------------------------------------------
